@@ -30,6 +30,15 @@ def replay(req):
     if func.split('#')[0] in ('file_builder.FileBuilder._apply_cached_suboperations',
                               'file_builder.FileBuilder._unapply_cached_suboperations'):
         return failed_reuse_case(req)
+    if func.split('#')[0] in ('file_builder.FileBuilder._roll_back', 'file_builder.FileBuilder._build',
+                              'file_builder.FileBuilder._create_dirs', 'cache.Cache.write',
+                              'cache.Cache.start_building_file') or req.get('property') == 'C02':
+        return rollback_cases(req)
+    if req.get('property') == 'C07' or func.split('#')[0] in (
+            'file_builder.FileBuilder._sanitize_filename', 'cache.Cache.subbuild_key'):
+        return identity_cases(req)
+    if req.get('property') == 'C13':
+        return comparison_cases(req)
     if req.get('property') == 'C05':
         return effectiveness_cases(req)
     if func.startswith('simple_operation_executor.') and req.get('property') in ('C04', None):
@@ -37,6 +46,9 @@ def replay(req):
     r = replay_extra(req)
     if r is not None:
         return r
+    if req.get('property') == 'C01' or func.split('#')[0] in (
+            'file_builder.FileBuilder._is_simple_operation_cached',):
+        return transparency_cases(req)
     return {'reproduced': False, 'note': 'no replay template for %s' % func}
 
 
@@ -697,3 +709,478 @@ def failed_reuse_case(req):
         return {'reproduced': False, 'evaluations': 1, 'note': repr(seen)}
     finally:
         shutil.rmtree(root, ignore_errors=True)
+
+
+# -------------------------------------------------------------------------------------------------
+def rollback_cases(req):
+    """C02: a build that raises leaves the pre-build state (bytes + mtime of every regular file,
+    no new file or directory), on several histories; the exception propagates as the same object"""
+    from file_builder import FileBuilder
+    n = 0
+
+    def files_only(snap):
+        return {p: v for p, v in snap.items() if v[0] == 'file'}
+
+    def run_case(name, prepare, failing_build, allow_old_dirs=()):
+        nonlocal n
+        n += 1
+        root = scratch()
+        try:
+            ctx = prepare(root)
+            before = snapshot(root)
+            boom = ValueError('boom-%s' % name)
+            try:
+                failing_build(root, ctx, boom)
+                return {'reproduced': True, 'check': 'failing build did not raise', 'input': name}
+            except BaseException as e:
+                if e is not boom:
+                    return {'reproduced': True, 'check': 'a different exception propagated',
+                            'input': name, 'observed': repr(e), 'expected': repr(boom)}
+            after = snapshot(root)
+            fb, fa = files_only(before), files_only(after)
+            for p in sorted(set(fb) | set(fa)):
+                if p not in fa:
+                    return {'reproduced': True, 'check': 'a pre-existing file is gone after '
+                            'rollback', 'input': name, 'observed': os.path.relpath(p, root)}
+                if p not in fb:
+                    return {'reproduced': True, 'check': 'a file created by the failed build '
+                            'remains', 'input': name, 'observed': os.path.relpath(p, root)}
+                if fb[p][1:3] != fa[p][1:3]:
+                    return {'reproduced': True, 'check': 'bytes or mtime of a pre-existing file '
+                            'changed', 'input': name, 'observed': os.path.relpath(p, root)}
+            newdirs = [p for p in after if after[p][0] == 'dir' and p not in before
+                       and os.path.relpath(p, root) not in allow_old_dirs]
+            if newdirs:
+                return {'reproduced': True, 'check': 'a directory created by the failed build '
+                        'remains', 'input': name,
+                        'observed': [os.path.relpath(p, root) for p in newdirs]}
+            return None
+        finally:
+            shutil.rmtree(root, ignore_errors=True)
+
+    def mk(b, filename, text='x'):
+        write(filename, text)
+        return len(text)
+
+    # 1. plain: new outputs and a foreign file overwritten by build_file
+    def prep1(root):
+        write(os.path.join(root, 'foreign.txt'), 'foreign')
+        return os.path.join(root, 'c.gz')
+
+    def fail1(root, cache, boom):
+        def f(b):
+            b.build_file(os.path.join(root, 'out', 'a.txt'), 'mk', mk)
+            b.build_file(os.path.join(root, 'foreign.txt'), 'mk', mk, 'overwritten')
+            raise boom
+        FileBuilder.build(cache, 'n', f)
+
+    # 2. D4: an output of the previous build was deleted externally, is rebuilt, then the build fails
+    def prep2(root):
+        cache = os.path.join(root, 'c.gz')
+        FileBuilder.build(cache, 'n', lambda b: b.build_file(os.path.join(root, 'o', 'a.txt'),
+                                                             'mk', mk))
+        os.remove(os.path.join(root, 'o', 'a.txt'))
+        return cache
+
+    def fail2(root, cache, boom):
+        def f(b):
+            b.build_file(os.path.join(root, 'o', 'a.txt'), 'mk', mk)
+            raise boom
+        FileBuilder.build(cache, 'n', f)
+
+    # 3. the previous build recorded directory P; P is now a foreign file; build_file(P) fails
+    def prep3(root):
+        cache = os.path.join(root, 'c.gz')
+        FileBuilder.build(cache, 'n', lambda b: b.build_file(os.path.join(root, 'P', 'x.txt'),
+                                                             'mk', mk))
+        shutil.rmtree(os.path.join(root, 'P'))
+        write(os.path.join(root, 'P'), 'foreign file where a directory used to be')
+        return cache
+
+    def fail3(root, cache, boom):
+        def f(b):
+            def bad(b2, filename):
+                write(filename, 'partial')
+                raise boom
+            b.build_file(os.path.join(root, 'P'), 'bad', bad)
+        FileBuilder.build(cache, 'n', f)
+
+    # 4. valid cache, reused + rebuilt outputs, failure after the last statement of a nested function
+    def prep4(root):
+        cache = os.path.join(root, 'c.gz')
+        write(os.path.join(root, 'in.txt'), 'v1')
+
+        def f(b):
+            def cp(b2, filename):
+                with b2.read_text(os.path.join(root, 'in.txt')) as fh:
+                    write(filename, fh.read())
+            b.build_file(os.path.join(root, 'o', 'copy.txt'), 'cp', cp)
+            b.build_file(os.path.join(root, 'o', 'keep.txt'), 'mk', mk)
+        FileBuilder.build(cache, 'n', f)
+        write(os.path.join(root, 'in.txt'), 'v2-longer')
+        return cache
+
+    def fail4(root, cache, boom):
+        def f(b):
+            def cp(b2, filename):
+                with b2.read_text(os.path.join(root, 'in.txt')) as fh:
+                    write(filename, fh.read())
+            b.build_file(os.path.join(root, 'o', 'copy.txt'), 'cp', cp)
+            b.build_file(os.path.join(root, 'o', 'keep.txt'), 'mk', mk)
+            b.build_file(os.path.join(root, 'o2', 'new.txt'), 'mk', mk)
+
+            def sub(b2):
+                b2.build_file(os.path.join(root, 'o3', 'deep', 'n.txt'), 'mk', mk)
+                raise boom
+            b.subbuild('sub', sub)
+        FileBuilder.build(cache, 'n', f)
+
+    for case in (('new outputs and an overwritten foreign file', prep1, fail1),
+                 ('rebuilt output whose old copy was deleted externally', prep2, fail2, ('o',)),
+                 ('recorded directory replaced by a foreign file', prep3, fail3),
+                 ('reused and rebuilt outputs, nested failure', prep4, fail4)):
+        r = run_case(*case)
+        if r:
+            r['evaluations'] = n
+            return r
+    # 5. D5: the cache write fails on a first build: no cache file may be left
+    root = scratch()
+    try:
+        n += 1
+        import gzip as _gz
+        real_open = _gz.open
+        cache = os.path.join(root, 'c.gz')
+
+        class Failing:
+            def __init__(self, f):
+                self.f = f
+
+            def __enter__(self):
+                return self
+
+            def __exit__(self, *a):
+                self.f.close()
+
+            def write(self, data):
+                raise OSError(28, 'No space left on device (injected)')
+
+        def bad_open(filename, mode='rb', *a, **k):
+            f = real_open(filename, mode, *a, **k)
+            return Failing(f) if 'w' in mode else f
+        _gz.open = bad_open
+        try:
+            try:
+                FileBuilder.build(cache, 'n', lambda b: b.build_file(
+                    os.path.join(root, 'o', 'a.txt'), 'mk', mk))
+                raised = None
+            except OSError as e:
+                raised = e
+        finally:
+            _gz.open = real_open
+        left = sorted(os.path.relpath(p, root) for p in snapshot(root) if p != root)
+        if raised is not None and left:
+            return {'reproduced': True, 'check': 'a failed first cache write leaves files behind',
+                    'input': 'first build; gzip write raises ENOSPC', 'observed': left,
+                    'evaluations': n}
+    finally:
+        shutil.rmtree(root, ignore_errors=True)
+    return {'reproduced': False, 'evaluations': n}
+
+
+# -------------------------------------------------------------------------------------------------
+def identity_cases(req):
+    """C07: same cache entry <=> same name, same normalised path, JSON-equal arguments"""
+    import itertools
+    from file_builder import FileBuilder
+    root = scratch()
+    n = 0
+    try:
+        args = [[], {}, True, 1, 1.0, 0, False, None, '1', [1], (1,), [True], [{}], {'a': 1},
+                {'a': 1.0}, {'a': True}, {'1': 0}, {1: 0}, [[]], '']
+
+        import replay_json
+
+        def jeq(a, b):
+            # JSON equality of the statement: 1 == 1.0, bool != number, lists == tuples
+            return replay_json.ref_jeq(json.loads(json.dumps(a)), json.loads(json.dumps(b)))
+        cache = os.path.join(root, 'c.gz')
+        for a, b in itertools.combinations(args, 2):
+            n += 1
+            calls = []
+
+            def f(bb, x):
+                calls.append(x)
+                return 1
+
+            def rootf(bb):
+                bb.subbuild('f', f, a)
+                try:
+                    bb.subbuild('f', f, b)
+                    return 'both'
+                except RuntimeError:
+                    return 'duplicate'
+            if os.path.exists(cache):
+                os.remove(cache)
+            r = FileBuilder.build(cache, 'n', rootf)
+            same = (r == 'duplicate')
+            if same != jeq(a, b):
+                return {'reproduced': True, 'check': 'subbuild identity differs from JSON equality',
+                        'input': repr((a, b)), 'observed': 'same entry' if same else 'different',
+                        'expected': 'same entry' if jeq(a, b) else 'different', 'evaluations': n}
+        # path spellings
+        target = os.path.join(root, 'd', 'out', 'gen.txt')
+        spellings = [target, os.path.join(root, 'd', 'out') + os.sep + os.sep + 'gen.txt',
+                     os.path.join(root, 'd', 'out', '.', 'gen.txt'),
+                     os.path.join(root, 'd', 'x', '..', 'out', 'gen.txt'), os.fsencode(target),
+                     __import__('pathlib').Path(target)]
+        cache2 = os.path.join(root, 'c2.gz')
+        seen = []
+
+        def mk(bb, filename):
+            seen.append(filename)
+            write(filename, 'x')
+        for sp in spellings:
+            n += 1
+            del seen[:]
+            FileBuilder.build(cache2, 'n', lambda bb: bb.build_file(sp, 'mk', mk))
+            if sp is spellings[0]:
+                if seen != [target]:
+                    return {'reproduced': True, 'check': 'function did not get the normalised path',
+                            'observed': repr(seen), 'evaluations': n}
+            elif seen:
+                return {'reproduced': True, 'check': 'another spelling of the same path is a '
+                        'different cache entry', 'input': repr(sp), 'observed': repr(seen),
+                        'evaluations': n}
+        return {'reproduced': False, 'evaluations': n}
+    finally:
+        shutil.rmtree(root, ignore_errors=True)
+
+
+# -------------------------------------------------------------------------------------------------
+def comparison_cases(req):
+    """C13: HASH tracks content (also when size and mtime are preserved, also for appended NUL
+    bytes and large files) and ignores pure timestamp changes; METADATA re-executes exactly when
+    size or mtime_ns differ (also by 1 ns).  Inputs read top-level and nested in a reused subtree,
+    and output integrity."""
+    from file_builder import FileBuilder, FileComparison
+    n = 0
+
+    def scenario(mode, mutate, expect_rerun, what, nested, size=None):
+        nonlocal n
+        n += 1
+        root = scratch()
+        try:
+            src = os.path.join(root, 'in.bin')
+            with open(src, 'wb') as f:
+                f.write(b'A' * (size or 10))
+            os.utime(src, ns=(10 ** 18, 10 ** 18))
+            log = []
+
+            def reader(b):
+                log.append('reader')
+                with b.read_binary(src, mode) as fh:
+                    return len(fh.read())
+
+            def outer(b):
+                log.append('outer')
+                return b.subbuild('reader', reader)
+
+            def rootf(b):
+                return b.subbuild('outer', outer) if nested else b.subbuild('reader', reader)
+            cache = os.path.join(root, 'c.gz')
+            FileBuilder.build(cache, 'n', rootf)
+            del log[:]
+            mutate(src)
+            FileBuilder.build(cache, 'n', rootf)
+            reran = 'reader' in log
+            if reran != expect_rerun:
+                return {'reproduced': True, 'check': 'comparison mode %s: %s' % (
+                    mode.name, 'change not detected' if expect_rerun else 'unjustified re-execution'),
+                    'input': '%s, %s' % (what, 'nested in a reused subtree' if nested
+                                         else 'top level'),
+                    'observed': list(log), 'evaluations': n}
+            return None
+        finally:
+            shutil.rmtree(root, ignore_errors=True)
+
+    def same_meta_new_content(p):
+        st = os.stat(p)
+        data = open(p, 'rb').read()
+        with open(p, 'wb') as f:
+            f.write(b'B' + data[1:])
+        os.utime(p, ns=(st.st_atime_ns, st.st_mtime_ns))
+
+    def append_nul_keep_mtime(p):
+        st = os.stat(p)
+        with open(p, 'ab') as f:
+            f.write(b'\x00' * 7)
+        os.utime(p, ns=(st.st_atime_ns, st.st_mtime_ns))
+
+    def repeat_tail_keep_mtime(p):
+        st = os.stat(p)
+        data = open(p, 'rb').read()
+        with open(p, 'ab') as f:
+            f.write(data[:5000])
+        os.utime(p, ns=(st.st_atime_ns, st.st_mtime_ns))
+
+    def touch_only(p):
+        st = os.stat(p)
+        os.utime(p, ns=(st.st_atime_ns, st.st_mtime_ns + 5 * 10 ** 9))
+
+    def mtime_plus_1ns(p):
+        st = os.stat(p)
+        os.utime(p, ns=(st.st_atime_ns, st.st_mtime_ns + 1))
+
+    H, Mt = FileComparison.HASH, FileComparison.METADATA
+    cases = [(H, same_meta_new_content, True, 'content changed, size and mtime preserved', None),
+             (H, append_nul_keep_mtime, True, 'NUL bytes appended, mtime preserved', None),
+             (H, repeat_tail_keep_mtime, True, 'tail repeating earlier bytes appended to a 70 KiB '
+              'file, mtime preserved', 70000),
+             (H, touch_only, False, 'pure timestamp change', None),
+             (Mt, mtime_plus_1ns, True, 'mtime_ns + 1', None),
+             (Mt, touch_only, True, 'timestamp change', None),
+             (Mt, same_meta_new_content, False, 'content changed, size and mtime preserved', None)]
+    for nested in (False, True):
+        for (mode, mut, exp, what, size) in cases:
+            r = scenario(mode, mut, exp, what, nested, size)
+            if r:
+                return r
+    # output integrity + read-back in a reused subtree with different modes
+    for build_mode, read_mode, mut, exp, what in (
+            (Mt, H, same_meta_new_content, True, 'output built with METADATA, read back with HASH, '
+             'content changed with size/mtime preserved'),
+            (H, Mt, touch_only, True, 'output built with HASH, read back with METADATA, '
+             'timestamp changed'),
+            (H, H, same_meta_new_content, True, 'output tampered, size and mtime preserved'),
+            (H, H, touch_only, False, 'output touched only')):
+        n += 1
+        root = scratch()
+        try:
+            out = os.path.join(root, 'o', 'out.bin')
+            log = []
+
+            def mkout(b, filename):
+                log.append('mkout')
+                with open(filename, 'wb') as f:
+                    f.write(b'A' * 10)
+
+            def consumer(b):
+                log.append('consumer')
+                b.build_file_with_comparison(out, build_mode, 'mkout', mkout)
+                with b.read_binary(out, read_mode) as fh:
+                    return len(fh.read())
+            cache = os.path.join(root, 'c.gz')
+            FileBuilder.build(cache, 'n', lambda b: b.subbuild('consumer', consumer))
+            del log[:]
+            mut(out)
+            FileBuilder.build(cache, 'n', lambda b: b.subbuild('consumer', consumer))
+            reran = 'consumer' in log
+            if reran != exp:
+                return {'reproduced': True, 'check': 'comparison modes on an output read back: %s'
+                        % ('change not detected' if exp else 'unjustified re-execution'),
+                        'input': what, 'observed': list(log), 'evaluations': n}
+        finally:
+            shutil.rmtree(root, ignore_errors=True)
+    return {'reproduced': False, 'evaluations': n}
+
+
+# -------------------------------------------------------------------------------------------------
+def transparency_cases(req):
+    """C01 (differential): a history of two builds around an external change of one path; the
+    incremental second build must give the outcome (value or exception class), the user-function
+    side effects and the output tree of a from-scratch build on the same inputs.  The external
+    changes cover every pair of {absent, file 'a', file 'b', empty dir, dir with a child} and every
+    query kind, so recorded values AND recorded exception classes are exercised."""
+    from file_builder import FileBuilder
+    n = 0
+    STATES = ['absent', 'file-a', 'file-b', 'dir', 'dir-child']
+
+    def put(p, state):
+        if os.path.isdir(p) and not os.path.islink(p):
+            shutil.rmtree(p)
+        elif os.path.lexists(p):
+            os.remove(p)
+        if state == 'file-a':
+            write(p, 'a')
+        elif state == 'file-b':
+            write(p, 'bb')
+        elif state == 'dir':
+            os.makedirs(p)
+        elif state == 'dir-child':
+            os.makedirs(p)
+            write(os.path.join(p, 'child'), 'c')
+
+    def q_read(b, p):
+        with b.read_text(p) as f:
+            return f.read()
+    QUERIES = {'read': q_read, 'is_file': lambda b, p: b.is_file(p),
+               'is_dir': lambda b, p: b.is_dir(p), 'exists': lambda b, p: b.exists(p),
+               'get_size': lambda b, p: b.get_size(p),
+               'list_dir': lambda b, p: b.list_dir(p)}
+    CAUGHT = {'none': (), 'FileNotFoundError': (FileNotFoundError,), 'OSError': (OSError,)}
+
+    for qname, q in sorted(QUERIES.items()):
+        for caught_name, caught in sorted(CAUGHT.items()):
+            for s1 in STATES:
+                for s2 in STATES:
+                    if s1 == s2:
+                        continue
+                    n += 1
+                    outcomes = []
+                    roots = []
+                    try:
+                        for variant in ('incremental', 'scratch'):
+                            root = scratch()
+                            roots.append(root)
+                            p = os.path.join(root, 'in', 'x')
+                            os.makedirs(os.path.join(root, 'in'))
+                            calls = []
+
+                            def load(b, p):
+                                calls.append('load')
+                                try:
+                                    return q(b, p)
+                                except caught:
+                                    return 'fallback'
+
+                            def wr(b, filename, value):
+                                calls.append('wr')
+                                with open(filename, 'w') as f:
+                                    f.write(repr(value))
+
+                            def prog(b):
+                                v = b.subbuild('load', load, p)
+                                b.build_file(os.path.join(root, 'out', 'r.txt'), 'wr', wr, v)
+                                return v
+
+                            def run():
+                                try:
+                                    return ('ok', FileBuilder.build(
+                                        os.path.join(root, 'cache.gz'), 'demo', prog))
+                                except Exception as e:
+                                    return ('raise', type(e).__name__)
+                            if variant == 'incremental':
+                                put(p, s1)
+                                run()
+                            put(p, s2)
+                            del calls[:]
+                            res = run()
+                            snap = {k[len(root):]: v[:2] if v[0] == 'file' else v[0]
+                                    for k, v in snapshot(root).items()
+                                    if not k.endswith('cache.gz')}
+                            outcomes.append((res, snap, variant == 'scratch' or None))
+                        # a failing build is rolled back to the state before it (C02), so output
+                        # trees are compared for successful builds only
+                        if outcomes[0][0] != outcomes[1][0] or (
+                                outcomes[0][0][0] == 'ok' and outcomes[0][1] != outcomes[1][1]):
+                            return {'reproduced': True,
+                                    'check': 'incremental build differs from a from-scratch build',
+                                    'input': '%s(x) with %s caught; x: %s -> %s between the builds'
+                                             % (qname, caught_name, s1, s2),
+                                    'observed': {'incremental': repr(outcomes[0][0]),
+                                                 'from_scratch': repr(outcomes[1][0])},
+                                    'evaluations': n}
+                    finally:
+                        for r in roots:
+                            shutil.rmtree(r, ignore_errors=True)
+    return {'reproduced': False, 'evaluations': n}
